@@ -70,3 +70,13 @@ for _pid, _expl in {
 for _pid in ("C02", "C03", "C06", "C13"):
     PROPS[_pid]["families"] = PROPS[_pid]["families"] + ["engine"]
     PROPS[_pid]["assumptions"] = PROPS[_pid]["assumptions"] + ENGINE_ASSUME
+
+ADAPTER_ASSUME = ["records are identified by small integers (workflow, foreign ID, run ID); the object is a JSON value carrying one integer; times are offsets on a fixed base instant",
+                  "sequential driver: one operation at a time (the adapters serialise every operation under one mutex)"]
+PROPS["C17"] = {"families": ["memstore"], "assumptions": ADAPTER_ASSUME + ["domain: a run ID keeps its workflow and foreign ID; List offsets >= 0; outbox limit >= 1 (a limit of 0 returns one entry on memrecordstore and none on SQL: outside 'up to the limit')"],
+                "explanation": "memrecordstore vs the reference store: exhaustive short sequences, random long ones with caller mutations after Store / after reads, List grid (offset, limit, order, single and multi-value filters)"}
+PROPS["C19"] = {"families": ["memstream"], "assumptions": ADAPTER_ASSUME + ["domain: a receiver name is used with one topic and one StreamFromLatest setting throughout a sequence (memstreamer shares one position per name across topics; the EventStreamer contract does not say whether a position is per topic)",
+                                                                            "'Recv would block' is observed with a 15 ms deadline, re-tried once with 120 ms"],
+                "explanation": "memstreamer and its connector vs the reference log with per-name positions: exhaustive short sequences, random long ones, empty and pre-filled logs"}
+PROPS["C12"]["families"] = ["engine", "memtimeout"]
+PROPS["C12"]["assumptions"] = ENGINE_ASSUME + ADAPTER_ASSUME
